@@ -77,7 +77,9 @@ func (s *jobSnapshot) addSourceRunnerSnapshot(ckpt *jobpb.SourceRunnerCheckpoint
 		return fmt.Errorf("received source runner checkpoint with unknown id id=%s, expectedIDs=%v", ckpt.SourceRunnerId, ids)
 	}
 	if wasCompleted {
+		// Keep the first report: appending again would duplicate split positions.
 		slog.Warn("received another source runner checkpoint from same id", "id", ckpt.SourceRunnerId)
+		return nil
 	}
 
 	s.sourceRunnerIDsComplete[ckpt.SourceRunnerId] = true
